@@ -8,7 +8,7 @@
     payload bytes and (a superset of) all valid-UTF-8 strings.  Library behaviour enters only as
     an explicit, pointwise hypothesis of the round-trip theorems. *)
 From WM Require Import Base.Prelude Message.Model Value.Model Value.Codec Value.Json Value.ToyCodec
-  Value.EqualsProofs Value.CodecProofs Value.StoreProofs Value.JsonProofs Value.ToyProofs Value.CrossProofs Value.Reuse Value.ReuseProofs Value.Scan Value.ScanProofs Value.Sorted Value.SortedProofs Value.JsonInt Value.JsonIntProofs.
+  Value.EqualsProofs Value.CodecProofs Value.StoreProofs Value.JsonProofs Value.ToyProofs Value.CrossProofs Value.Reuse Value.ReuseProofs Value.Scan Value.ScanProofs Value.Sorted Value.SortedProofs Value.JsonInt Value.JsonIntProofs Value.AcceptProofs Value.Small Value.SmallProofs Value.ProtoWire Value.ProtoWireProofs.
 
 (** * Equals *)
 
@@ -419,6 +419,86 @@ Theorem C16_reply_roundtrip_int : forall nu (p : rparams Z) m,
   unmarshal_reply Z dec_int m = Ok (Rep Z (p_result Z p) (p_err Z p)).
 Proof. exact reply_roundtrip_int. Qed.
 
+(** * Round "proofs 3" *)
+
+(** every acceptor applied to implementation results accepts what the model computes *)
+Theorem C16_cqrs_json_model_accepted : forall V type_string gen_name cfg_uuid default_uuid venc vdec veqb,
+  (forall x, veqb x x = true) -> forall v : V,
+  (forall b, venc v = Some b -> vdec (pl_bytes b) = Some v) ->
+  cqrs_rt_ok V type_string gen_name veqb v (json_marshal V type_string gen_name cfg_uuid default_uuid venc v)
+    (read_name (json_marshal V type_string gen_name cfg_uuid default_uuid venc v))
+    (read_back V (json_unmarshal V vdec) (json_marshal V type_string gen_name cfg_uuid default_uuid venc v)) = true.
+Proof. exact json_model_accepted. Qed.
+Theorem C16_cqrs_proto_model_accepted : forall V type_string gen_name cfg_uuid default_uuid is_msg venc vdec veqb,
+  (forall x, veqb x x = true) -> forall v : V,
+  (forall b, venc v = Some b -> vdec (pl_bytes b) = Some v) ->
+  cqrs_rt_ok V type_string gen_name veqb v (proto_marshal V type_string gen_name cfg_uuid default_uuid is_msg venc v)
+    (read_name (proto_marshal V type_string gen_name cfg_uuid default_uuid is_msg venc v))
+    (read_back V (proto_unmarshal V is_msg vdec) (proto_marshal V type_string gen_name cfg_uuid default_uuid is_msg venc v)) = true.
+Proof. exact proto_model_accepted. Qed.
+Theorem C16_cqrs_gogo_model_accepted : forall V type_string gen_name cfg_uuid default_uuid is_msg venc vdec is_gogo genc gdec nofb veqb,
+  (forall x, veqb x x = true) -> forall v : V,
+  (forall b, genc v = LOk b -> gdec (pl_bytes b) = LOk v) ->
+  (forall b, venc v = Some b -> vdec (pl_bytes b) = Some v) ->
+  (forall b v', venc v = Some b -> gdec (pl_bytes b) = LOk v' -> v' = v) ->
+  cqrs_rt_ok V type_string gen_name veqb v (gogo_marshal V type_string gen_name cfg_uuid default_uuid is_msg venc is_gogo genc nofb v)
+    (read_name (gogo_marshal V type_string gen_name cfg_uuid default_uuid is_msg venc is_gogo genc nofb v))
+    (read_back V (gogo_unmarshal V is_msg vdec is_gogo gdec nofb true)
+       (gogo_marshal V type_string gen_name cfg_uuid default_uuid is_msg venc is_gogo genc nofb v)) = true.
+Proof. exact gogo_model_accepted. Qed.
+Theorem C16_publisher_model_accepted : forall jenc jdec nu cfg inner_ok dest ms ft ws,
+  (forall m, In m ms -> msg_wf m) ->
+  (forall m b, In m ms -> jenc (env_of dest m) = Some b -> jdec b = Some (env_of dest m)) ->
+  fwd_publish jenc nu cfg inner_ok dest ms = Ok (ft, ws) ->
+  length ws = length ms
+  /\ forallb (fun mu => envelope_rt_ok dest (fst mu) (snd mu)) (combine ms (map (unwrap jdec) ws)) = true.
+Proof. exact publisher_model_accepted. Qed.
+
+(** protobuf wire format of the wrapper messages (varint, tag, length-delimited), proved read back:
+    the ProtoMarshaler round trip for them has no library hypothesis *)
+Theorem C16_proto_wire_roundtrips :
+  (forall s, (N.of_nat (length s) < two64)%N -> dec_len_msg (enc_len_msg s) = Some s)
+  /\ (forall s b, (N.of_nat (length s) < two64)%N -> enc_string_msg s = Some b -> dec_string_msg b = Some s)
+  /\ (forall z, int64_ok z -> dec_int64_msg (enc_int64_msg z) = Some z)
+  /\ (forall b, dec_bool_msg (enc_bool_msg b) = Some b).
+Proof. exact (conj len_msg_roundtrip (conj string_msg_roundtrip (conj int64_msg_roundtrip bool_msg_roundtrip))). Qed.
+Theorem C16_cqrs_proto_roundtrip_string_closed : forall ts gen cu du (v : list N) m,
+  (N.of_nat (length v) < two64)%N ->
+  proto_marshal (list N) ts gen cu du true (fun v => option_map Some (enc_string_msg v)) v = Ok m ->
+  proto_unmarshal (list N) true dec_string_msg m = Ok v /\ name_from_message m = name_of (list N) ts gen v.
+Proof. exact proto_roundtrip_string_closed. Qed.
+Theorem C16_cqrs_proto_roundtrip_bytes_closed : forall ts gen cu du (v : list N) m,
+  (N.of_nat (length v) < two64)%N ->
+  proto_marshal (list N) ts gen cu du true (fun v => Some (Some (enc_len_msg v))) v = Ok m ->
+  proto_unmarshal (list N) true dec_len_msg m = Ok v /\ name_from_message m = name_of (list N) ts gen v.
+Proof. exact proto_roundtrip_bytes_closed. Qed.
+Theorem C16_cqrs_proto_roundtrip_int64_closed : forall ts gen cu du (v : Z) m, int64_ok v ->
+  proto_marshal Z ts gen cu du true (fun v => Some (Some (enc_int64_msg v))) v = Ok m ->
+  proto_unmarshal Z true dec_int64_msg m = Ok v /\ name_from_message m = name_of Z ts gen v.
+Proof. exact proto_roundtrip_int64_closed. Qed.
+Theorem C16_cqrs_proto_roundtrip_bool_closed : forall ts gen cu du (v : bool) m,
+  proto_marshal bool ts gen cu du true (fun v => Some (Some (enc_bool_msg v))) v = Ok m ->
+  proto_unmarshal bool true dec_bool_msg m = Ok v /\ name_from_message m = name_of bool ts gen v.
+Proof. exact proto_roundtrip_bool_closed. Qed.
+
+(** Messages.IDs, LogFields.Add / Copy, identifier formats *)
+Theorem C16_messages_ids : forall ms,
+  length (ids ms) = length ms /\ forall i, nth_error (ids ms) i = option_map uuid (nth_error ms i).
+Proof. exact ids_spec. Qed.
+Theorem C16_logfields_add : forall l new, md_wf (md_entries l) -> md_wf (md_entries new) ->
+  md_wf (lf_add l new)
+  /\ forall k, md_get (lf_add l new) k
+               = match md_get (md_entries new) k with Some v => Some v | None => md_get (md_entries l) k end.
+Proof. exact lf_add_spec. Qed.
+Theorem C16_logfields_copy : forall l, md_wf (md_entries l) -> lf_copy l = md_entries l.
+Proof. exact lf_copy_spec. Qed.
+Theorem C16_copy_drops_context : forall mc c,
+  fst (copy_c (set_context mc c)) = fst mc /\ snd (copy_c (set_context mc c)) = 0%N.
+Proof. exact copy_drops_context. Qed.
+Theorem C16_id_formats_usable : forall s,
+  uuid4_format s = true \/ shortuuid_format s = true \/ ulid_format s = true -> s <> [] /\ utf8_valid s = true.
+Proof. exact id_formats_usable. Qed.
+
 Print Assumptions C16_equals_iff.
 Print Assumptions C16_equals_iff_refuted.
 Print Assumptions C16_equals_symmetric_refuted.
@@ -481,6 +561,21 @@ Print Assumptions C16_envelope_roundtrip_sorted_same_value.
 
 Print Assumptions C16_json_int_roundtrip.
 Print Assumptions C16_reply_roundtrip_int.
+
+Print Assumptions C16_cqrs_json_model_accepted.
+Print Assumptions C16_cqrs_proto_model_accepted.
+Print Assumptions C16_cqrs_gogo_model_accepted.
+Print Assumptions C16_publisher_model_accepted.
+Print Assumptions C16_proto_wire_roundtrips.
+Print Assumptions C16_cqrs_proto_roundtrip_string_closed.
+Print Assumptions C16_cqrs_proto_roundtrip_bytes_closed.
+Print Assumptions C16_cqrs_proto_roundtrip_int64_closed.
+Print Assumptions C16_cqrs_proto_roundtrip_bool_closed.
+Print Assumptions C16_messages_ids.
+Print Assumptions C16_logfields_add.
+Print Assumptions C16_logfields_copy.
+Print Assumptions C16_id_formats_usable.
+Print Assumptions C16_copy_drops_context.
 
 (** * Non-vacuity *)
 
